@@ -47,14 +47,22 @@ RULE = ('Hypothesis-generated cases: 1-6 static-registration files forming an in
         'readers, one unregistered reader, entries the reader\'s own predicate denies}, each '
         'place holding a distinct content; optionally one file is unreadable everywhere (decoys '
         'only) and one statement targets an unknown configurable/module; entry point in '
-        '{parse_config, parse_config_file, parse_config_files_and_bindings (1-3 files, extra '
+        '{parse_config, parse_config_file, parse_config_files_and_bindings (0-3 files, extra '
         'bindings, finalize_config default/False/True)} x skip_unknown {not passed, True, False}; '
+        'with no files the files argument is [] / None / (), with no bindings the bindings '
+        'argument is [] / None / ""; optionally, after a successful call that left the config '
+        'unlocked, the multi-file entry point is called again with nothing to parse '
+        '(finalize_config default/False/True, skip_unknown variants) and must finalize iff not '
+        'told otherwise; '
         'sys.path holds the generated package dir, optionally also the current directory or '
         'plain directories (namespace packages) named like the directory part of the names. '
         'Non-trivial = >=2 include levels were parsed and a binding was overridden across a file '
         'boundary, or some parsed name had >=2 readable candidates in different (location, '
         'reader) places. Distinct = distinct case JSON.')
 ASSUMPTIONS = [
+    '"finalizes" is observed as: config_is_locked() is true, a finalize hook registered by the '
+    'check ran exactly once and saw the final config, and a further bind_parameter is refused; '
+    'this also holds when there is nothing to parse (no files, no bindings)',
     'static registration only (dynamic-registration files belong to C19)',
     'a search location is a path prefix joined to the name with "/"; the current directory is the '
     'empty prefix and precedes every added location; readers are tried in registration order '
@@ -88,7 +96,9 @@ FLOORS = {
     'default-skip-with-unknown:config': 0.01, 'default-skip-with-unknown:file': 0.01,
     'default-skip-with-unknown:multi': 0.01, 'missing:abs-direct': 0.003,
     'nspath:namespace-dir-consulted': 0.05, 'selected:custom-reader': 0.05,
-    'ns:file-only-in-later-portion': 0.015, 'ns:several-portions-hold-file': 0.005,
+    'multi:nothing-to-parse,finalize-default': 0.004,
+    'after:nothing-to-parse,finalize-default': 0.03, 'ns:file-only-in-later-portion': 0.015,
+    'ns:several-portions-hold-file': 0.005,
     'selected:package-reader': 0.03, 'decoy-present': 0.10,
 }
 TECHNIQUE = ('model-based differential testing: Hypothesis-generated file trees and placements; '
@@ -179,13 +189,19 @@ def strategy():
       'entry': st.sampled_from(['config', 'file', 'multi']),
       'skip': st.sampled_from(['default', 'default', 'true', 'false']),
       'finalize': st.sampled_from(['default', 'default', 'false', 'true']),
-      'roots': st.integers(1, 3),
+      'roots': st.sampled_from([0, 1, 1, 2, 2, 3]),
+      'eform': st.integers(0, 8),
+      'after': st.one_of(st.none(), st.none(), st.fixed_dictionaries({
+          'finalize': st.sampled_from(['default', 'default', 'false', 'true']),
+          'skip': st.sampled_from(['default', 'true', 'false']),
+          'eform': st.integers(0, 8)})),
       'locs': st.lists(st.sampled_from(['abs', 'abs', 'rel']), min_size=1, max_size=3),
       'nread': st.integers(1, 3),
       'nspath': st.sampled_from([0, 0, 1, 2]),
       'nsdirs': st.integers(0, 7),
       'files': files,
-      'bindings': st.lists(_stmt().filter(lambda s: s[0] in 'bmuk'), min_size=0, max_size=3),
+      'bindings': st.integers(0, 3).flatmap(lambda k: st.lists(
+          _stmt().filter(lambda s: s[0] in 'bmuk'), min_size=max(0, k - 1), max_size=3)),
       'missing': st.one_of(st.none(), st.none(), st.none(), _small, _small),
       'unknown': st.one_of(st.none(), st.none(), st.none(), _unknown, _unknown),
   })
@@ -244,7 +260,7 @@ class Model:
     # tree: parents, levels, children
     self.level = [0] * n
     self.children = [[] for _ in range(n)]
-    for j in range(self.nroots, n):
+    for j in range(max(1, self.nroots), n):    # nroots == 0: no file is passed, none is reached
       cands = [i for i in range(j) if self.level[i] < MAX_LEVELS]
       p = cands[-1 - (files[j]['parent'] % len(cands))]
       self.level[j] = self.level[p] + 1
@@ -635,6 +651,26 @@ def _namespace_dir_consulted(m):
   return False
 
 
+def _empty_files(eform):
+  return [[], None, ()][eform % 3]
+
+
+def _empty_bindings(eform):
+  return [[], None, ''][(eform // 3) % 3]
+
+
+def _check_refuses_binding(desc, cs):
+  """Finalized means locked: a further binding is refused and changes nothing."""
+  try:
+    gin.bind_parameter('c14_a.x', 'after-finalize')
+  except Exception:  # pylint: disable=broad-except
+    pass
+  else:
+    raise Violation('not-finalized', f'{desc}: bind_parameter was accepted after finalization')
+  require(gin.config_str() == cs, 'not-finalized',
+          lambda: f'{desc}: a refused bind_parameter changed the config')
+
+
 def _tree_imports_differ(trees):
   seen = []
 
@@ -739,9 +775,17 @@ def _check(case, tmp):
     finalize_requested = case['finalize'] != 'false'
     extra = [m._render_item('B', 'B', idx, item)     # pylint: disable=protected-access
              for idx, item in enumerate(m.binding_items)]
-    if not extra and len(case['files']) % 2:
-      extra = None
+    if not extra:
+      if 'eform' in case:
+        extra = _empty_bindings(case['eform'])
+      elif len(case['files']) % 2:
+        extra = None
     roots = [m.names[r] for r in range(m.nroots)]
+    if not roots:
+      roots = _empty_files(case.get('eform', 0))
+    if not roots and not extra:
+      labels.add('multi:nothing-to-parse')
+      labels.add('multi:nothing-to-parse,finalize-' + case['finalize'])
     call = lambda: gin.parse_config_files_and_bindings(roots, extra, **kw)
     labels.add('multi:finalize-' + case['finalize'])
     labels.add(f'multi:files={m.nroots}')
@@ -857,9 +901,43 @@ def _check(case, tmp):
               lambda: f'{desc}: finalize hook ran {len(hook_snapshots)} times')
       require(hook_snapshots[0] == cs, 'finalized-before-everything-applied',
               lambda: f'{desc}: config at finalize time\n{hook_snapshots[0]}\n--- final\n{cs}')
+      _check_refuses_binding(desc, cs)
     else:
       require(not locked and not hook_snapshots, 'finalized-although-told-not-to',
               lambda: f'{desc}: locked={locked} hook calls={len(hook_snapshots)}')
+  # ---- later in the same process: the multi-file entry point with nothing to parse ----------
+  after = case.get('after')
+  if after is not None and not gin.config_is_locked():
+    akw = {}
+    if after['skip'] != 'default':
+      akw['skip_unknown'] = after['skip'] == 'true'
+    if after['finalize'] != 'default':
+      akw['finalize_config'] = after['finalize'] == 'true'
+    a_files, a_bindings = _empty_files(after['eform']), _empty_bindings(after['eform'])
+    adesc = (f'{desc}, then parse_config_files_and_bindings({a_files!r}, {a_bindings!r}, '
+             f'**{akw})')
+    calls_before = len(hook_snapshots)
+    try:
+      a_got = gin.parse_config_files_and_bindings(a_files, a_bindings, **akw)
+    except Exception as e:  # pylint: disable=broad-except
+      raise Violation('unexpected-error', f'{adesc}: {type(e).__name__}: {e}')
+    require(isinstance(a_got, (list, tuple)) and not a_got, 'tree-shape',
+            lambda: f'{adesc} returned {a_got!r}')
+    require(gin.config_str() == cs, 'config-differs-from-flattened',
+            lambda: f'{adesc} changed the config:\n{gin.config_str()}\n--- before\n{cs}')
+    ran = len(hook_snapshots) - calls_before
+    if after['finalize'] != 'false':
+      require(gin.config_is_locked(), 'not-finalized',
+              lambda: f'{adesc}: the config is not locked')
+      require(ran == 1, 'finalize-hook-calls', lambda: f'{adesc}: finalize hook ran {ran} times')
+      require(hook_snapshots[-1] == cs, 'finalized-before-everything-applied',
+              lambda: f'{adesc}: config at finalize time\n{hook_snapshots[-1]}\n--- final\n{cs}')
+      _check_refuses_binding(adesc, cs)
+    else:
+      require(not gin.config_is_locked() and ran == 0, 'finalized-although-told-not-to',
+              lambda: f'{adesc}: locked={gin.config_is_locked()} hook calls={ran}')
+    labels.add('after:nothing-to-parse')
+    labels.add('after:nothing-to-parse,finalize-' + after['finalize'])
   if _tree_imports_differ(trees):
     labels.add('tree:imports-differ')
   labels.add('outcome:ok')
